@@ -51,10 +51,14 @@ package ice
 //@   ensures ignores-nothing-received: n <= 0 ==> p.packetsReceived == old(p.packetsReceived) && p.bytesReceived == old(p.bytesReceived)
 
 //@ func (*candidateBase).handleInboundPacket
-//@   props C07
+//@   props C07 C02
 //@   ghostvar known bool = false
 //@   ghostvar stunLike bool = true
 //@   site call IsMessage#1 ghost stunLike := result
+//@   ghostvar classified bool = false
+//@   site call IsMessage#1 ghost classified := true
+//@   site call validateSTUNTrafficCache#1 assert C02 C07 the-liveness-refreshing-cache-is-consulted-only-for-non-stun-traffic: classified && !stunLike
+//@   site call handleInboundSTUNMessage#1 assert C02 stun-goes-to-the-authenticating-path-only: stunLike && arg1 == buf && arg2 == srcAddr
 //@   site call validateSTUNTrafficCache#1 ghost known := result
 //@   site call validateNonSTUNTraffic#1 assert looked-up-for-this-candidate-and-source: arg1.payload == c && arg2 == srcAddr
 //@   site call validateNonSTUNTraffic#1 ghost known := result1
